@@ -81,35 +81,7 @@ Qed.
 
 (* ------------------------------------------------------------------ *)
 (* 2. the composition written out *)
-Definition fm_parse (segs : list seg) : presult := parse_file_model (map seg_ty segs) (map seg_wsnl segs).
-(* the tokens handed to everything after the parser: the lexer's text, the parser's types with the generic chevrons distinguished *)
-Definition fm_toks0 (segs : list seg) : list token := tokens_of segs (r_toks (fm_parse segs)).
-Definition fm_toks (segs : list seg) : list token := retype (fm_toks0 segs) (generics_consolidate (map t_ty (fm_toks0 segs))).
-Definition fm_tys (segs : list seg) : list TokenType := map t_ty (fm_toks segs).
-(* the lines after both consolidators *)
-Definition fm_lines_cd (segs : list seg) : list lline := conddir_consolidate_std (fm_tys segs) (r_lines (fm_parse segs)).
-Definition fm_lines0 (segs : list seg) : list lline := deindent_package (fm_tys segs) (fm_lines_cd segs).
-(* the ignore marks *)
-Definition fm_marks (segs : list seg) : list bool :=
-  or_marks (or_marks (map (fun _ => false) (fm_toks0 segs)) (toggle_marks false (fm_toks segs)))
-           (asm_marks (fm_toks segs) (map line_view (fm_lines0 segs))).
-(* what the formatters see *)
-Definition fm_lines (segs : list seg) : list lline := void_llines (fm_marks segs) (fm_lines0 segs).
-Definition fm_l0 (segs : list seg) : list ftoken :=
-  map (fun tm : token * bool => (fst tm, fmt_of_ws (t_ws (fst tm)) (snd tm))) (combine (fm_toks segs) (fm_marks segs)).
-Definition fm_l1 segs := token_spacing (fm_l0 segs).
-Definition fm_l2 segs := lowercase_keywords (fm_l1 segs).
-Definition fm_l3 alnum segs := comment_formatter alnum (fm_l2 segs).
-Definition fm_l4 alnum segs := eof_newline_lines (fm_lines segs) (fm_l3 alnum segs).
-Definition fm_wrap alnum cfg segs := olf_model (cfg_rs cfg) (cfg_ws cfg) (c_fms cfg) (fm_lines segs) (fm_l4 alnum segs).
-Definition fm_final alnum cfg segs : list ftoken := fst (fst (fm_wrap alnum cfg segs)).
-Definition fm_out alnum cfg segs : bytes := reconstruct (cfg_rs cfg) (fm_final alnum cfg segs).
-
-(* the three side conditions: the explicit error values of the stage models that the composition can return
-   (FormatTotalProofs: the second and third are never hit) *)
-Definition fm_parse_ok segs : Prop := r_err (fm_parse segs) = None.
-Definition fm_conddir_ok segs : Prop := expand_all_chk (fm_tys segs) (r_lines (fm_parse segs)) <> None.
-Definition fm_wrap_ok alnum cfg segs : Prop := snd (fm_wrap alnum cfg segs) = false.
+(* the named intermediate values fm_* and the three side conditions are defined in Model/Format.v *)
 
 Lemma chain_after_lex alnum cfg segs :
   run_kinds alnum cfg (tl make_formatter_kinds) (S_raw segs) =
